@@ -326,6 +326,9 @@ class Sym:
     def sqrt(s):
         return ENGINE.sqrt(s.t)
 
+    def cbrt(s):
+        return ENGINE.cbrt(s.t)
+
     def conjugate(s):
         return s
 
@@ -658,6 +661,28 @@ class Engine:
         self.side.append(z3.And(r * r == _to_real(t), r >= 0))
         s = Sym(r)
         self._sqrt_cache[key] = (t, s)  # keep t alive so ids are not recycled
+        return s
+
+    def cbrt(self, t):
+        """real cube root: exact for perfect cubes, otherwise a fresh real r with r^3 == t"""
+        v = _numeral(t)
+        if v is not None:
+            sg = -1 if v < 0 else 1
+            a = abs(v)
+            n, d = round(a.numerator ** (1.0 / 3)), round(a.denominator ** (1.0 / 3))
+            for nn in (n - 1, n, n + 1):
+                for dd in (d - 1, d, d + 1):
+                    if dd > 0 and nn >= 0 and nn**3 == a.numerator and dd**3 == a.denominator:
+                        return Sym(_term(Fraction(sg * nn, dd)))
+            if self.opts.get("approx_sqrt"):
+                return Sym(_term(Fraction(sg * float(a) ** (1.0 / 3))))
+        key = ("cbrt", t.get_id())
+        if key in self._sqrt_cache:
+            return self._sqrt_cache[key][1]
+        r = self.fresh_real("cbrt")
+        self.side.append(r * r * r == _to_real(t))
+        s = Sym(r)
+        self._sqrt_cache[key] = (t, s)
         return s
 
     # ---- solving helpers
